@@ -144,7 +144,7 @@ def run(ctx):
                                                      'file_hex': c['bytes'].hex()[:4000], 'implementation': mine[:2000], 'model': (model.get(c['id']) or '')[:2000],
                                                      'line': c['line'][:9000]})
     cov = {'evaluations': len(cases), 'distinct_nontrivial': len(distinct),
-           'rule': 'archives produced by an independent Python packer (0-5 entries with backslash directory names, empty/text/binary/large contents, 0-3 properties with and without prefix, with and without checksum trailer), each also damaged four times (truncation at a random point, single bit flip, a 32-bit field overwritten with a huge value, inserted bytes, all zeros, random bytes), plus an absent file; plus entries whose names differ only in letter case (distinct entries), and pairs of archives mounted side by side under different prefixes with entries of the same names read alternately; every file is written to a scratch directory, opened through pbofile as the command line does, listed, every entry read through the archive and through the virtual file system, and the directory compared before/after; oracle: well-formed archives list exactly the packed properties/entries/bytes, damaged ones are rejected or expose only complete entries inside the file, nothing is created or modified; the Lean parser model must give the same listing and bytes for every file, damaged ones included; distinct by file bytes',
+           'rule': 'archives produced by an independent Python packer (0-5 entries with backslash directory names, names and property strings up to 650 bytes, empty/text/binary/large contents and contents that begin with the bytes of a byte order mark, 0-3 properties with and without prefix, with and without checksum trailer), each also damaged four times (truncation at a random point, single bit flip, a 32-bit field overwritten with a huge value, inserted bytes, all zeros, random bytes), plus an absent file; plus entries whose names differ only in letter case (distinct entries), and pairs of archives mounted side by side under different prefixes with entries of the same names read alternately; every file is written to a scratch directory, opened through pbofile as the command line does, listed, every entry read through the archive and through the virtual file system, and the directory compared before/after; oracle: well-formed archives list exactly the packed properties/entries/bytes, damaged ones are rejected or expose only complete entries inside the file, nothing is created or modified; the Lean parser model must give the same listing and bytes for every file, damaged ones included; distinct by file bytes',
            'samples': samples, 'oracle_failures': n_or, 'model_mismatches': n_mm, 'case_kinds': kinds, 'outcomes': outcomes, 'generator_counts': g.stats, 'sanitizer_cases': n_asan, 'sanitizer_failures': n_asan_bad, 'archive_pairs': len(pairs), 'archive_pair_failures': n_pair_bad}
     return rep.finish(cov, ['reads past the end and oversized allocations are observed only in the thorough tier (AddressSanitizer/UBSan build of the current tree); the model reads only inside the byte string by construction',
                             'compressed and encrypted entries are listed with their stored bytes; no decompression exists in the implementation',
